@@ -307,6 +307,26 @@ CLAIMS = {
         "Trusted: Coq kernel; extraction + driver; harness abstraction of files. Axioms: none.",
         "6 (C12)",
     ),
+    "C07": (
+        "Coq proofs over all source texts and all replacement sets that the CST write-back keeps every untouched node byte for "
+        "byte (on top of the C09 scanner/parser model) and, over the call order of doctrans() regenerated from the source, that no "
+        "raising package call can follow the open-for-write; a refutation theorem for the header re-print; tied by running "
+        "maybe_replace_function_args against the extracted re-print and by evaluating the whole property on real doctrans runs",
+        "C07_cst_untouched / C07_nothing_replaced_is_identity / C07_one_node_replaced: for every source and every set of replaced "
+        "nodes the written text is the original outside the replaced nodes; C07_header_reprint_shape + C07_header_reprint_refuted: "
+        "the faithful model of maybe_replace_function_args writes only `name[: annotation]` of the positional parameters between "
+        "the parentheses, so defaults, *args, keyword-only parameters and **kwargs are dropped (known findings, re-observed every "
+        "run); C07_checker_sound + C07_failure_atomic: in doctrans_order (Gen/DoctransOrder.v, regenerated by "
+        "translate/writeorder.py) every package call precedes the open-for-write, so a failing conversion leaves the file "
+        "untouched. Each run executes doctrans in place on generated modules x 3 styles x type_annotations x word-wrap and checks: "
+        "valid Python; AST identical once docstrings/annotations/type comments are erased (per-def blame); comments in order; "
+        "non-header non-docstring lines identical; file bytes identical after a raised error (inputs that raise in the write-back "
+        "are generated); and compares the extracted header_reprint with maybe_replace_function_args on every def header of the "
+        "modules (0 disagreements). DocTrans (AST rewrite), find_cst_at_ast and the docstring / return-type replacers are "
+        "exercised end to end only, not modelled: partial.",
+        "Trusted: Coq kernel; extraction + driver; translate/writeorder.py (fail-closed linearisation, BENIGN call list). Axioms: none.",
+        "6 (C07)",
+    ),
 }
 
 NOT_YET = "check not built yet in this development (DESIGN.md section 8 gives the order of work)"
